@@ -654,7 +654,8 @@ def campaign(build, tier, seed, report, budget=1):
         "meaning (coo_expand of tocoo, then from_coo); the kernel itself is compared by correspondence only",
         "take with axis=None on the real getitem path (x.flatten()[indices]): correspondence only "
         "(take_*_getitem_den cover every integer axis)",
-        "triu / tril / diagonal for GCXS or DOK inputs: the code raises AttributeError (clause extract_input_not_COO)",
+        "triu / tril / diagonal / diagonalize for GCXS or DOK inputs: the theorems are about the COO the input is "
+        "converted to (asCOO / as_coo, pinned in Gen/S_join.v); the conversion itself is C05's",
         "conversion of DOK members to COO inside the COO joiner (C05) and index dtype widths (C15; only the bound "
         "indptr_needed_bounds is proved here)",
     ]
